@@ -498,10 +498,10 @@ impl RoomAuthorisations {
 
         for edge in &deletion_query.edges {
             match edge.edge.src_entity.as_str() {
-                system_entities::ROOM_ENT
-                | system_entities::AUTHORISATION_ENT
-                | system_entities::ENTITY_RIGHT_ENT
-                | system_entities::USER_AUTH_ENT => return Err(Error::DeleteNotAllowed()),
+                system_entities::ROOM_ENT_SHORT
+                | system_entities::AUTHORISATION_ENT_SHORT
+                | system_entities::ENTITY_RIGHT_ENT_SHORT
+                | system_entities::USER_AUTH_ENT_SHORT => return Err(Error::DeleteNotAllowed()),
                 _ => {
                     if let Some(room_id) = &edge.room_id {
                         match self.rooms.get(room_id) {
